@@ -245,6 +245,35 @@ theorem single_region_wf (cs : List Nat) (hs : ∀ c ∈ cs, scalar c) (hne : cs
   simp only [h0, if_false, if_true, Nat.sub_zero, List.drop_zero, this, Nat.zero_add]
   simp
 
+/-- drop one leading byte-order mark -/
+def dropBom : List Nat → List Nat
+  | 0xfeff :: cs => cs
+  | cs => cs
+
+/-- … and a text that starts with a byte-order mark converts to BOM + the UTF-16 of the rest: exactly one leading U+FEFF is
+    dropped, a second one is an ordinary character -/
+theorem single_region_bom (cs : List Nat) (hs : ∀ c ∈ cs, scalar c) :
+    toUtf16 [(0xfeff :: cs).flatMap enc] = .ok (0xfeff :: cs.flatMap enc16) 0 := by
+  have he : enc 0xfeff = [0xef, 0xbb, 0xbf] := by decide
+  have hl : ((0xfeff :: cs).flatMap enc).length = 3 + (cs.flatMap enc).length := by
+    simp [List.flatMap_cons, he]; omega
+  have hrs := readSeq_enc 0xfeff (by decide) (cs.flatMap enc)
+  rw [he] at hrs
+  have hw := inner_wf cs (2 + (cs.flatMap enc).length) 3 [0xfeff] (3 + (cs.flatMap enc).length) ((0xfeff :: cs).flatMap enc)
+    hs (fun h => absurd h (by decide)) rfl (by omega)
+  simp only [toUtf16, regions, region, List.flatten_cons, List.flatten_nil, List.append_nil, hl]
+  have h0 : ¬ 3 + (cs.flatMap enc).length ≤ 0 := by omega
+  simp only [h0, if_false, if_true, Nat.sub_zero, List.drop_zero, Nat.zero_add]
+  simp only [List.flatMap_cons, he, List.cons_append, List.nil_append] at hw hrs ⊢
+  have hu : ulen 0xef = 3 := by decide
+  have hnlt : ¬ 3 + (cs.flatMap enc).length < 3 + 0 := by omega
+  have hem : emit 65279 (0 + 0 == 0) = some [] := by decide
+  rw [show 3 + (cs.flatMap enc).length = (2 + (cs.flatMap enc).length) + 1 by omega]
+  simp only [inner, h0, if_false, hu, hrs, hem]
+  rw [show (2 + (cs.flatMap enc).length) + 1 = 3 + (cs.flatMap enc).length by omega]
+  simp only [hnlt, if_false, Nat.reduceEqDiff, List.drop_succ_cons, List.drop_zero, List.append_nil, Nat.zero_add]
+  rw [if_neg h0, hw]
+
 /-! ### the defects F7, F11, F12 of the earlier loop, on the repaired one -/
 
 /-- F7 (fixed): `ED BF BF` (U+DFFF) is rejected like every other encoded surrogate -/
